@@ -414,6 +414,7 @@ class Acl(AceGroup):
             if aces_items:
                 aceg_o = AceGroup(
                     platform=self._platform,
+                    version=str(self.version),
                     type=self._type,
                     group_by=group_by,
                     protocol_nr=self._protocol_nr,
